@@ -134,6 +134,7 @@ fn cmd_run(args: &[String]) -> i32 {
         *kinds.entry(sc.kind.name()).or_insert(0) += 1;
         total_ops += sc.ops.len() as u64;
         let res = run_scenario(&sc, mode, false);
+        guard::mark_phase(guard::PHASE_IDLE); // from here on this process only does bookkeeping
         runs_done += 1;
         counters.merge(&res.counters);
         states.extend(res.states.iter());
@@ -200,6 +201,7 @@ fn cmd_run(args: &[String]) -> i32 {
         }
     }
 
+    guard::mark_phase(guard::PHASE_IDLE);
     let mut o = JsonValue::new_object();
     o["prop"] = mode.name().into();
     o["seed"] = simcore::ju64(seed);
